@@ -12,12 +12,12 @@ CONSTANTS
   WakeAfterPush = TRUE
   Overflow = FALSE
   Hosts <- BothHosts
-  Muts = {"none","repaired"}
+  Muts = {"none"}
   Ops = {"o1"}
   Timers = {}
   Jobs = {"j1"}
   Owner <- OwnQJ
   AnyTurn = TRUE
 SPECIFICATION XFairSpec
-INVARIANTS XTypeOK PendingBound TypeOK RealSafe RepBoth
-PROPERTIES CompletesRepaired JobSeenRepaired
+INVARIANTS XTypeOK PendingBound TypeOK RealSafe
+PROPERTIES Completes OpSeen JobSeen
